@@ -153,7 +153,9 @@ def run(tier: str, seed: int) -> int:
         chk.notes["cache_events"] = 0
     # (b) threaded pack runs
     runs = []
-    for ci, cfg in enumerate([Cfg(n=10, nin=3, nout=4, mode="inside", seed=seed), Cfg(n=10, nin=3, nout=3, mode="outside_uuid", seed=seed + 1)] +
+    for ci, cfg in enumerate([Cfg(n=10, nin=3, nout=4, mode="inside", seed=seed), Cfg(n=10, nin=3, nout=3, mode="outside_uuid", seed=seed + 1),
+                              Cfg(n=10, nin=3, nout=7, mode="inside", seed=seed + 3, dup=3)] +      # empty output partitions between non-empty ones
+
                              ([] if quick else [Cfg(n=12, nin=4, nout=5, mode="outside_fixed", seed=seed + 2)])):
         ref = packfs.run_pack(cfg, keep=True)
         want = clean(snapshot(ref.root))
